@@ -883,3 +883,651 @@ def check_init_stores(cls, names):
         if stored.get(a) != [True]:
             raise TB('%s.__init__ does not store %s unchanged exactly once' % (cls.name, a))
     return init
+
+
+# ======================================================================================================================
+# Second layer (C05, C09): constructs beyond the decision functions above.  Nothing above this line changes meaning.
+#   * function values with parameters (`def g(a, b=dflt)`, `lambda`): class Fun; a call inlines the body;
+#   * `[elt for pat in it if cond]` over range / zip / enumerate / list terms -> map / filter / combine / seq;
+#   * `x[0]`, `x[1]` on a pair term -> fst / snd; `l[i]` with i a nat term -> nth i l dflt; `l[::-1]` -> rev, `l[1:]` -> tl;
+#   * `n in l`, `n not in l` on a list of nat -> existsb (Nat.eqb n) l;
+#   * `a or b` with a an optional list -> por a b (python truth of a list: non-empty);
+#   * `l[i] = v` -> upd i v l; `obj.attr = v` on an object term -> recorded attribute (read back by `obj.attr`);
+#   * `if a is None or b is None:` -> nested tests; `try: assert c / except AssertionError: H` -> `if c: pass else: H`;
+#   * `for pat in it: if c: raise E(..)` -> match find_first (fun x => c) it with Some x => raise | None => go on;
+#   * a call of another translated function used as a statement / assignment / return is inlined, the rest of the caller
+#     continuing under every path of the callee (`bind_inline`);
+#   * calls that raise on an empty argument (np.argmin ..) register a pending `match .. with None => raise | Some i => ..`
+#     wrapped around the rest of the function after the statement they occur in;
+#   * reading a local that no path has assigned ends the path with UnboundLocalError.
+# Rendering of the new branch kinds: render2.  PRELUDE2 is Coq text for the helper functions named above.
+PRELUDE2 = '''(* helpers of the translator (harness/props/tie_translate.py): the reading of python constructs *)
+Definition por {X} (x : option (list X)) (y : list X) : list X :=        (* `x or y`: an empty list is false *)
+  match x with Some (a :: t) => a :: t | _ => y end.
+Fixpoint find_first {X} (p : X -> bool) (l : list X) : option X :=       (* first iteration of a `for` whose `if` fires *)
+  match l with [] => None | a :: t => if p a then Some a else find_first p t end.
+'''
+
+
+class Fun:
+    """function value: parameters, defaults (evaluated at definition), body (statements or one expression), captured env"""
+
+    def __init__(self, name, params, defaults, body, env, is_expr=False):
+        self.name, self.params, self.defaults, self.body, self.env, self.is_expr = name, params, defaults, body, env, is_expr
+
+    def __repr__(self):
+        return 'Fun(%s)' % self.name
+
+
+class Dct:
+    def __init__(self, items):
+        self.items = dict(items)
+
+
+class UnboundLocal(TB):
+    pass
+
+
+class Br2(Branch):
+    """branch rendered through a template: '@@k@@' is replaced by the rendering of case k"""
+
+    def __init__(self, template, cases):
+        Branch.__init__(self, 'tpl', template, tuple(cases), None)
+
+
+def rebuild(o, cases):
+    if isinstance(o, Br2):
+        return Br2(o.scrut, cases)
+    return Branch(o.kind, o.scrut, tuple(cases), o.var)
+
+
+def map_leaves(o, k):
+    if isinstance(o, Branch):
+        return rebuild(o, [map_leaves(c, k) for c in o.cases])
+    return k(o)
+
+
+def render2(o, leaf):
+    if isinstance(o, Br2):
+        s = o.scrut
+        for i, c in enumerate(o.cases):
+            s = s.replace('@@%d@@' % i, render2(c, leaf))
+        return s
+    if isinstance(o, Branch):
+        a, b = (render2(x, leaf) for x in o.cases)
+        if o.kind == 'if':
+            return '(if %s then %s else %s)' % (o.scrut, a, b)
+        return '(match %s with None => %s | Some %s => %s end)' % (o.scrut, a, o.var, b)
+    return leaf(o)
+
+
+def coqty(t, num='V N'):
+    if t == NUM:
+        return num
+    if t == BOOL:
+        return 'bool'
+    if t == NAT:
+        return 'nat'
+    if t == ZT:
+        return 'Z'
+    if t == OPTNUM:
+        return 'option (%s)' % num
+    if isinstance(t, tuple):
+        if t[0] == 'list':
+            return 'list (%s)' % coqty(t[1], num)
+        if t[0] == 'option':
+            return 'option (%s)' % coqty(t[1], num)
+        if t[0] == 'prod':
+            return '(%s * %s)' % (coqty(t[1], num), coqty(t[2], num))
+    if isinstance(t, str):
+        return t
+    raise TB('type %r has no Coq rendering' % (t,))
+
+
+def is_list(v):
+    return isinstance(v, T) and isinstance(v.ty, tuple) and v.ty[0] == 'list'
+
+
+def assigned_locals(fn):
+    out = set()
+    for n in ast.walk(fn):
+        if isinstance(n, ast.Name) and isinstance(n.ctx, ast.Store):
+            out.add(n.id)
+    return out
+
+
+class Exec2(Exec):
+    dflt = {NUM: '(n0 N)', NAT: '0', BOOL: 'false'}
+
+    def __init__(self):
+        super().__init__()
+        self.pending = []            # (scrutinee : option term, variable, exception name) of the statement being executed
+        self.locals = set()          # names assigned somewhere in the function being translated: reading one unbound ends the path
+        self.nvar = 0
+
+    # ---- hooks ---------------------------------------------------------------------------------------------------
+    def inline_target(self, call, st):
+        """(FunctionDef, state of the callee) when `call` is a call of another translated function to be inlined, else None"""
+        return None
+
+    def skip_stmt(self, s, st):
+        return False
+
+    def fun_term(self, f):
+        raise TB('function value %r has no Coq term' % (f,))
+
+    def obj_attr(self, obj, attr, node, st):
+        raise TB('attribute .%s of %r (line %d)' % (attr, obj, node.lineno))
+
+    def while_stmt(self, s, st, rest):
+        raise TB('while loop (line %d)' % s.lineno)
+
+    def dflt_of(self, ty):
+        if ty in self.dflt:
+            return self.dflt[ty]
+        if isinstance(ty, tuple) and ty[0] == 'list':
+            return '[]'
+        if isinstance(ty, tuple) and ty[0] == 'option':
+            return 'None'
+        if isinstance(ty, tuple) and ty[0] == 'prod':
+            return '(%s, %s)' % (self.dflt_of(ty[1]), self.dflt_of(ty[2]))
+        raise TB('no default element of type %r' % (ty,))
+
+    def fresh_var(self, base):
+        self.nvar += 1
+        return 'x_%s%d' % (base, self.nvar)
+
+    def is_obj(self, v):
+        return False
+
+    # ---- names ---------------------------------------------------------------------------------------------------
+    def name_lookup(self, name, st):
+        if name in st.env:
+            return st.env[name]
+        if name in self.locals:
+            raise UnboundLocal('local %s read before assignment' % name)
+        return self.global_name(name, st)
+
+    # ---- expressions -----------------------------------------------------------------------------------------------
+    def expr(self, e, st):
+        d = dump(e)
+        for pd, val in self.patterns:
+            if pd == d:
+                return val(st) if callable(val) else val
+        if isinstance(e, ast.Name):
+            return self.name_lookup(e.id, st)
+        if isinstance(e, ast.Lambda):
+            a = e.args
+            if a.posonlyargs or a.vararg or a.kwonlyargs or a.kwarg:
+                raise TB('lambda signature (line %d)' % e.lineno)
+            params = [x.arg for x in a.args]
+            dfl = {p: self.expr(dv, st) for p, dv in zip(params[len(params) - len(a.defaults):], a.defaults)}
+            return Fun('<lambda>', params, dfl, e.body, dict(st.env), is_expr=True)
+        if isinstance(e, ast.List) and any(isinstance(x, ast.Starred) for x in e.elts):
+            if len(e.elts) != 1:
+                raise TB('list display mixing * and elements (line %d)' % e.lineno)
+            v = self.expr(e.elts[0].value, st)           # [*x]: a copy of x
+            if is_list(v) or isinstance(v, Lst):
+                return v
+            raise TB('[*x] on %r (line %d)' % (v, e.lineno))
+        if isinstance(e, ast.Dict):
+            if not all(isinstance(k, ast.Constant) and isinstance(k.value, str) for k in e.keys):
+                raise TB('dict display with non-literal keys (line %d)' % e.lineno)
+            return Dct([(k.value, self.expr(v, st)) for k, v in zip(e.keys, e.values)])
+        if isinstance(e, ast.BoolOp) and isinstance(e.op, ast.Or) and len(e.values) == 2:
+            a = self.expr(e.values[0], st)
+            if isinstance(a, T) and isinstance(a.ty, tuple) and a.ty[0] == 'option' and isinstance(a.ty[1], tuple) and a.ty[1][0] == 'list':
+                b = self.expr(e.values[1], st)
+                if isinstance(b, Lst) and not b.items:
+                    return T('(por %s [])' % a.s, a.ty[1])
+                if isinstance(b, T) and b.ty == a.ty[1]:
+                    return T('(por %s %s)' % (a.s, b.s), a.ty[1])
+                raise TB('`or` of an optional list with %r (line %d)' % (b, e.lineno))
+        if isinstance(e, ast.Attribute) and not (isinstance(e.value, ast.Name) and e.value.id == 'self' and 'self' not in st.env):
+            base = self.expr(e.value, st)
+            if self.is_obj(base):
+                k = base.s + '\x1f' + e.attr
+                if k in st.attrs:
+                    return st.attrs[k]
+                return self.obj_attr(base, e.attr, e, st)
+            return self.attr_ext(base, e.attr, e, st)
+        if isinstance(e, ast.Subscript) and isinstance(e.slice, ast.Slice):
+            base = self.expr(e.value, st)
+            sl = e.slice
+            cst = lambda x: None if x is None else self.expr(x, st)
+            lo, hi, step = cst(sl.lower), cst(sl.upper), cst(sl.step)
+            if not is_list(base):
+                raise TB('slice of %r (line %d)' % (base, e.lineno))
+            if lo is None and hi is None and isinstance(step, S) and step.v == -1:
+                return T('(rev %s)' % base.s, base.ty)
+            if isinstance(lo, S) and lo.v == 1 and hi is None and step is None:
+                return T('(tl %s)' % base.s, base.ty)
+            raise TB('slice shape (line %d)' % e.lineno)
+        return super().expr(e, st)
+
+    def subscript(self, base, idx, node):
+        if isinstance(base, T) and isinstance(base.ty, tuple) and base.ty[0] == 'prod' and isinstance(idx, S) and idx.v in (0, 1) and not isinstance(idx.v, bool):
+            return T('(%s %s)' % ('fst' if idx.v == 0 else 'snd', base.s), base.ty[1 + idx.v])
+        if is_list(base) and isinstance(idx, T) and idx.ty == NAT:
+            return T('(nth %s %s %s)' % (idx.s, base.s, self.dflt_of(base.ty[1])), base.ty[1])
+        if is_list(base) and isinstance(idx, S) and isinstance(idx.v, int) and not isinstance(idx.v, bool) and idx.v >= 0:
+            return T('(nth %d %s %s)' % (idx.v, base.s, self.dflt_of(base.ty[1])), base.ty[1])
+        if is_list(base) and isinstance(idx, T) and idx.ty == OPTION(NAT):
+            d = self.dflt_of(base.ty[1])
+            return T('(match %s with Some i => nth i %s %s | None => %s end)' % (idx.s, base.s, d, d), base.ty[1])
+        if is_list(base) and isinstance(idx, T) and idx.ty == LIST(BOOL):
+            return T('(mask %s %s)' % (idx.s, base.s), base.ty)                 # boolean-mask indexing
+        if is_list(base) and isinstance(idx, Vec):
+            return T('(mask %s %s)' % (self.as_term(idx).s, base.s), base.ty)
+        if isinstance(base, Dct) and isinstance(idx, S) and isinstance(idx.v, str):
+            if idx.v not in base.items:
+                raise TB('key %r not in the dict (line %d)' % (idx.v, node.lineno))
+            return base.items[idx.v]
+        return super().subscript(base, idx, node)
+
+    def binop(self, op, a, b, node):
+        ta, tb_ = getattr(a, 'ty', None), getattr(b, 'ty', None)
+        if NAT in (ta, tb_) and op in ('Add', 'Sub'):
+            def nat(v):
+                if isinstance(v, T) and v.ty == NAT:
+                    return v.s
+                if isinstance(v, S) and isinstance(v.v, int) and not isinstance(v.v, bool) and v.v >= 0:
+                    return '%d' % v.v
+                raise TB('a natural number was expected (line %d)' % node.lineno)
+            return T('(%s %s %s)' % (nat(a), '+' if op == 'Add' else '-', nat(b)), NAT)      # python ints; `-` truncated at 0
+        if op == 'Add' and (is_list(a) or isinstance(a, Lst)) and (is_list(b) or isinstance(b, Lst)):
+            x, y = self.as_term(a), self.as_term(b)
+            if x.ty != y.ty:
+                raise TB('+ of a %r and a %r (line %d)' % (x.ty, y.ty, node.lineno))
+            return T('(%s ++ %s)' % (x.s, y.s), x.ty)
+        return super().binop(op, a, b, node)
+
+    def compare1(self, op, a, b, node):
+        opn = type(op).__name__
+        if opn in ('In', 'NotIn') and isinstance(a, T) and a.ty == NAT and isinstance(b, T) and b.ty == LIST(NAT):
+            s = '(existsb (Nat.eqb %s) %s)' % (a.s, b.s)
+            return T(s if opn == 'In' else '(negb %s)' % s, BOOL)
+        return super().compare1(op, a, b, node)
+
+    def as_term(self, v):
+        if isinstance(v, Fun):
+            return self.fun_term(v)
+        if isinstance(v, Lst) and not v.items:
+            raise TB('an empty list literal has no type of its own')
+        return super().as_term(v)
+
+    def merge(self, c, a, b):
+        if isinstance(a, Lst) and not a.items and is_list(b):
+            return T('(if %s then [] else %s)' % (c, b.s), b.ty)
+        if isinstance(b, Lst) and not b.items and is_list(a):
+            return T('(if %s then %s else [])' % (c, a.s), a.ty)
+        if isinstance(a, Fun) or isinstance(b, Fun):
+            if a is b:
+                return a
+            ta, tb_ = self.as_term(a), self.as_term(b)
+            if ta.ty != tb_.ty:
+                raise TB('cannot merge function values of different types')
+            return T('(if %s then %s else %s)' % (c, ta.s, tb_.s), ta.ty)
+        return super().merge(c, a, b)
+
+    # ---- comprehensions ----------------------------------------------------------------------------------------------
+    def bind_pattern(self, target, val, st, node):
+        if isinstance(target, ast.Name):
+            st.env[target.id] = val
+            return
+        self.assign(target, val, st, node)
+
+    def iter_term(self, it, node):
+        if isinstance(it, Lst):
+            it = self.list_term(it)
+        if isinstance(it, Vec):
+            it = self.as_term(it)
+        if not is_list(it):
+            raise TB('iteration over %r (line %d)' % (it, node.lineno))
+        return it
+
+    def comprehension(self, e, st):
+        if len(e.generators) != 1 or e.generators[0].is_async:
+            raise TB('comprehension shape (line %d)' % e.lineno)
+        g = e.generators[0]
+        it = self.expr(g.iter, st)
+        if not g.ifs and isinstance(g.target, ast.Name) and (isinstance(it, Tup) or (isinstance(it, Lst) and not all(is_static_num(x) for x in it.items))):
+            return super().comprehension(e, st)
+        it = self.iter_term(it, e)
+        names = [n.id for n in ast.walk(g.target) if isinstance(n, ast.Name)]
+        var = 'x_' + '_'.join(names)
+        st2 = st.copy()
+        self.bind_pattern(g.target, T(var, it.ty[1]), st2, e)
+        npend = len(self.pending)
+        src = it.s
+        if g.ifs:
+            conds = [self.test(c, st2) for c in g.ifs]
+            c = self.boolop('And', conds, e)
+            if isinstance(c, S):
+                raise TB('comprehension filter decided at translation time (line %d)' % e.lineno)
+            src = '(filter (fun %s => %s) %s)' % (var, self.boolterm(c), src)
+        body = self.expr(e.elt, st2)
+        width = len(body.items) if isinstance(body, Lst) else getattr(body, 'static_len', None)
+        if not isinstance(body, T):
+            body = self.as_term(body)
+        if len(self.pending) != npend:
+            raise TB('raising call inside a comprehension (line %d)' % e.lineno)
+        out = T(src, it.ty) if body.s == var else T('(map (fun %s => %s) %s)' % (var, body.s, src), LIST(body.ty))
+        if width is not None:
+            out.rowwidth = width                       # static length of every element
+        if not g.ifs and getattr(it, 'static_len', None) is not None:
+            out.static_len = it.static_len
+        return out
+
+    # ---- calls -------------------------------------------------------------------------------------------------------
+    def call(self, e, st):
+        if not (isinstance(e.func, ast.Name) and e.func.id == 'list' and e.func.id not in st.env):
+            f = self.expr(e.func, st)
+            if isinstance(f, Fun):
+                if any(isinstance(a, ast.Starred) for a in e.args) or any(k.arg is None for k in e.keywords):
+                    raise TB('*args / **kwargs in the call of a local function (line %d)' % e.lineno)
+                return self.call_fun(f, [self.expr(a, st) for a in e.args], {k.arg: self.expr(k.value, st) for k in e.keywords}, st, e)
+        return super().call(e, st)
+
+    def call_fun(self, f, args, kwargs, st, node):
+        if len(args) > len(f.params):
+            raise TB('%s: too many arguments (line %d)' % (f.name, node.lineno))
+        bound = dict(zip(f.params, args))
+        for k, v in kwargs.items():
+            if k in bound or k not in f.params:
+                raise TB('%s: keyword %s (line %d)' % (f.name, k, node.lineno))
+            bound[k] = v
+        for p in f.params:
+            if p not in bound:
+                if p not in f.defaults:
+                    raise TB('%s: missing argument %s (line %d)' % (f.name, p, node.lineno))
+                bound[p] = f.defaults[p]
+        st2 = St(dict(f.env, **bound), st.attrs, st.warns)
+        if f.is_expr:
+            return self.expr(f.body, st2)
+        o = self.block(f.body, st2)
+        if not isinstance(o, Ret):
+            raise TB('local function %s does not simply return (line %d)' % (f.name, node.lineno))
+        if o.st.attrs != st.attrs or o.st.warns != st.warns:
+            raise TB('local function %s has side effects' % f.name)
+        return o.val
+
+    def call_builtin(self, f, args, kwargs, e, st):
+        tag = f.tag
+        if tag == 'range' and not kwargs and len(args) == 1:
+            n = args[0]
+            if isinstance(n, T) and n.ty == NAT:
+                return T('(seq 0 %s)' % n.s, LIST(NAT))
+            if isinstance(n, S) and isinstance(n.v, int) and not isinstance(n.v, bool) and n.v >= 0:
+                out = T('(seq 0 %d)' % n.v, LIST(NAT))
+                out.static_len = n.v
+                return out
+            raise TB('range(%r)' % (n,))
+        if tag == 'range' and not kwargs and len(args) == 2 and all(isinstance(x, S) and isinstance(x.v, int) and not isinstance(x.v, bool) for x in args):
+            return Lst([S(i) for i in range(args[0].v, args[1].v)])
+        if tag == 'zip' and not kwargs and len(args) == 2 and all(is_list(x) for x in args):
+            return T('(combine %s %s)' % (args[0].s, args[1].s), LIST(PROD(args[0].ty[1], args[1].ty[1])))
+        if tag == 'enumerate' and not kwargs and len(args) == 1 and is_list(args[0]):
+            return T('(combine (seq 0 (length %s)) %s)' % (args[0].s, args[0].s), LIST(PROD(NAT, args[0].ty[1])))
+        if tag == 'list' and len(args) == 1 and not kwargs and is_list(args[0]):
+            return args[0]
+        if tag == 'len' and len(args) == 1 and not kwargs and is_list(args[0]):
+            return T('(length %s)' % args[0].s, NAT)
+        return super().call_builtin(f, args, kwargs, e, st)
+
+    # ---- statements --------------------------------------------------------------------------------------------------
+    def assign(self, target, val, st, node):
+        if isinstance(target, ast.Name) and isinstance(val, T) and isinstance(val.ty, tuple) and val.ty[0] == 'option':
+            v2 = T(val.s, val.ty, ('name', target.id))
+            st.env[target.id] = v2
+            return
+        if isinstance(target, ast.Subscript) and isinstance(target.value, ast.Name) and target.value.id in st.env:
+            cur = st.env[target.value.id]
+            if isinstance(cur, Lst):
+                cur = self.list_term(cur)
+            idx = self.expr(target.slice, st)
+            if is_list(cur):
+                v = self.as_term(val) if not (isinstance(val, S) and isinstance(val.v, bool)) else T('true' if val.v else 'false', BOOL)
+                if v.ty != cur.ty[1]:
+                    raise TB('storing a %r into a list of %r (line %d)' % (v.ty, cur.ty[1], node.lineno))
+                if isinstance(idx, T) and idx.ty == NAT:
+                    st.env[target.value.id] = T('(upd %s %s %s)' % (idx.s, v.s, cur.s), cur.ty)
+                    return
+                if isinstance(idx, T) and idx.ty == OPTION(NAT):
+                    st.env[target.value.id] = T('(match %s with Some i => upd i %s %s | None => %s end)' % (idx.s, v.s, cur.s, cur.s), cur.ty)
+                    return
+            raise TB('item assignment %s[..] (line %d)' % (target.value.id, node.lineno))
+        if isinstance(target, ast.Attribute) and isinstance(target.value, ast.Name) and target.value.id in st.env and self.is_obj(st.env[target.value.id]):
+            st.attrs[st.env[target.value.id].s + '\x1f' + target.attr] = val
+            return
+        super().assign(target, val, st, node)
+
+    def wrap_pending(self, st, k):
+        """pending entries: (scrutinee, variable, exception name) - `match scrutinee with None => raise | Some variable => ..`;
+        (term, variable, None) - `let variable := term in ..`"""
+        pend, self.pending = self.pending, []
+        if not pend:
+            return k()
+
+        def build(i):
+            if i == len(pend):
+                return k()
+            scrut, var, exc = pend[i]
+            if exc is None:
+                return Br2('(let %s := %s in @@0@@)' % (var, scrut), (build(i + 1),))
+            return Branch('opt', scrut, (Exc(exc, st), build(i + 1)), var)
+        return build(0)
+
+    def bind_inline(self, target, call, st, rest, kind):
+        got = self.inline_target(call, st)
+        if got is None:
+            return None
+        fn, cst = got
+        saved = self.locals
+        self.locals = assigned_locals(fn)
+        try:
+            o = self.block(fn.body, cst)
+        finally:
+            self.locals = saved
+
+        def k(leaf):
+            if isinstance(leaf, Exc):
+                return leaf
+            val = leaf.val if isinstance(leaf, Ret) else S(None)
+            st2 = St(st.env, leaf.st.attrs, leaf.st.warns)
+            if target is not None:
+                self.assign(target, val, st2, call)
+            if kind == 'return':
+                return Ret(val, st2)
+            return self.block(rest, st2)
+        return map_leaves(o, k)
+
+    def block(self, stmts, st):
+        stmts = list(stmts)
+        while stmts:
+            s = stmts.pop(0)
+            try:
+                r = self.stmt(s, st, stmts)
+            except UnboundLocal:
+                return Exc('UnboundLocalError', st)
+            if r is None:
+                continue
+            if isinstance(r, St):
+                st = r
+                continue
+            return r
+        return Fall(st)
+
+    def cont(self, o, rest):
+        if isinstance(o, Fall):
+            return self.block(rest, o.st)
+        if isinstance(o, Branch):
+            return rebuild(o, [self.cont(x, rest) for x in o.cases])
+        return o
+
+    def stmt(self, s, st, rest):
+        """None: state updated in place, go on; St: go on with that state; otherwise the outcome of the whole block"""
+        if isinstance(s, ast.Expr) and isinstance(s.value, ast.Constant) and isinstance(s.value.value, str):
+            return None
+        if isinstance(s, ast.Pass):
+            return None
+        if self.skip_stmt(s, st):
+            return None
+        self.pending = []
+        if isinstance(s, ast.Assign):
+            if len(s.targets) != 1:
+                raise TB('chained assignment (line %d)' % s.lineno)
+            if isinstance(s.value, ast.Call):
+                o = self.bind_inline(s.targets[0], s.value, st, rest, 'assign')
+                if o is not None:
+                    return o
+            self.assign(s.targets[0], self.expr(s.value, st), st, s)
+            if self.pending:
+                return self.wrap_pending(st, lambda: self.block(rest, st))
+            return None
+        if isinstance(s, ast.AugAssign):
+            if not isinstance(s.target, ast.Name):
+                raise TB('augmented assignment target (line %d)' % s.lineno)
+            cur = self.name_lookup(s.target.id, st)
+            st.env[s.target.id] = self.binop(type(s.op).__name__, cur, self.expr(s.value, st), s)
+            if self.pending:
+                return self.wrap_pending(st, lambda: self.block(rest, st))
+            return None
+        if isinstance(s, ast.Expr):
+            if isinstance(s.value, ast.Call):
+                o = self.bind_inline(None, s.value, st, rest, 'expr')
+                if o is not None:
+                    return o
+            self.expr_stmt(s.value, st)
+            if self.pending:
+                return self.wrap_pending(st, lambda: self.block(rest, st))
+            return None
+        if isinstance(s, ast.FunctionDef):
+            a = s.args
+            if a.posonlyargs or a.vararg or a.kwarg or a.kwonlyargs or s.decorator_list:
+                raise TB('local function signature (line %d)' % s.lineno)
+            if not a.args:
+                st.env[s.name] = Clo(s)
+                return None
+            params = [x.arg for x in a.args]
+            dfl = {p: self.expr(dv, st) for p, dv in zip(params[len(params) - len(a.defaults):], a.defaults)}
+            st.env[s.name] = Fun(s.name, params, dfl, s.body, dict(st.env))
+            return None
+        if isinstance(s, ast.Raise):
+            x = s.exc
+            if isinstance(x, ast.Call):
+                x = x.func
+            if isinstance(x, ast.Attribute):
+                name = x.attr
+            elif isinstance(x, ast.Name):
+                name = x.id
+            else:
+                raise TB('raise of %s (line %d)' % (type(x).__name__, s.lineno))
+            return Exc(name, st)
+        if isinstance(s, ast.Return):
+            if s.value is None:
+                raise TB('bare return (line %d)' % s.lineno)
+            if isinstance(s.value, ast.Call):
+                o = self.bind_inline(None, s.value, st, rest, 'return')
+                if o is not None:
+                    return o
+            v = self.expr(s.value, st)
+            return self.wrap_pending(st, lambda: Ret(v, st))
+        if isinstance(s, ast.If):
+            if isinstance(s.test, ast.BoolOp) and isinstance(s.test.op, ast.Or):
+                parts = [self.test(v, st) for v in s.test.values]
+                if any(isinstance(p, IsNone) for p in parts):
+                    # if a or b: B else: E   ==   if a: B else: (if b: B else: E)
+                    vals = s.test.values
+                    inner = ast.If(test=vals[1] if len(vals) == 2 else ast.BoolOp(op=ast.Or(), values=vals[1:]), body=s.body, orelse=s.orelse)
+                    outer = ast.If(test=vals[0], body=s.body, orelse=[inner])
+                    for n in (inner, outer):
+                        ast.copy_location(n, s)
+                    if len(vals) > 2:
+                        ast.copy_location(inner.test, s)
+                    rest.insert(0, outer)
+                    return None
+            c = self.test(s.test, st)
+            if self.pending:
+                raise TB('raising call inside an `if` test (line %d)' % s.lineno)
+            if isinstance(c, S):
+                rest[:0] = list(s.body if self.truth(c) else s.orelse)
+                return None
+            if isinstance(c, Vec):
+                raise TB('if on a tensor (line %d)' % s.lineno)
+            if isinstance(c, IsNone):
+                st_none, st_some = st.copy(), st.copy()
+                var = 'x_some'
+                if c.key is not None:
+                    kind, k = c.key
+                    var = 'x_' + k
+                    inner = T(var, c.term.ty[1])
+                    if kind == 'attr':
+                        st_some.attrs[k] = inner
+                        st_none.attrs[k] = S(None)
+                    else:
+                        st_some.env[k] = inner
+                        st_none.env[k] = S(None)
+                b_none, b_some = (s.body, s.orelse) if not c.neg else (s.orelse, s.body)
+                o_none = self.cont(self.block(b_none, st_none), rest)
+                o_some = self.cont(self.block(b_some, st_some), rest)
+                return Branch('opt', c.term.s, (o_none, o_some), var)
+            cs = self.boolterm(c)
+            o1 = self.block(s.body, st.copy())
+            o2 = self.block(s.orelse, st.copy())
+            if isinstance(o1, Fall) and isinstance(o2, Fall):
+                return self.merge_states(cs, o1.st, o2.st)
+            return Branch('if', cs, (self.cont(o1, rest), self.cont(o2, rest)))
+        if isinstance(s, ast.For):
+            return self.for_stmt(s, st, rest)
+        if isinstance(s, ast.While):
+            return self.while_stmt(s, st, rest)
+        if isinstance(s, ast.Try):
+            # try: assert c / except AssertionError: H     ==     if c: pass else: H
+            if (len(s.body) == 1 and isinstance(s.body[0], ast.Assert) and s.body[0].msg is None and len(s.handlers) == 1 and not s.orelse and not s.finalbody
+                    and isinstance(s.handlers[0].type, ast.Name) and s.handlers[0].type.id == 'AssertionError' and s.handlers[0].name is None):
+                n = ast.If(test=s.body[0].test, body=[ast.Pass()], orelse=s.handlers[0].body)
+                ast.copy_location(n, s)
+                ast.copy_location(n.body[0], s)
+                rest.insert(0, n)
+                return None
+            raise TB('try statement shape (line %d)' % s.lineno)
+        raise TB('statement %s (line %d)' % (type(s).__name__, s.lineno))
+
+    def merge_states(self, c, s1, s2):
+        out = St()
+        for k in s1.env:
+            if k in s2.env:
+                try:
+                    out.env[k] = self.merge(c, s1.env[k], s2.env[k])
+                except TB as e:
+                    out.env[k] = Ext('unmergeable', str(e))
+        for k in set(s1.attrs) | set(s2.attrs):
+            if k in s1.attrs and k in s2.attrs:
+                out.attrs[k] = self.merge(c, s1.attrs[k], s2.attrs[k])
+            else:
+                raise TB('attribute %s assigned under a condition only' % k.replace('\x1f', '.'))
+        n = 0
+        while n < len(s1.warns) and n < len(s2.warns) and s1.warns[n] == s2.warns[n]:
+            n += 1
+        out.warns = s1.warns[:n]
+        if len(s1.warns) > n or len(s2.warns) > n:
+            out.warns.append('(if %s then %s else %s)' % (c, render_warns(s1.warns[n:]), render_warns(s2.warns[n:])))
+        return out
+
+    def for_stmt(self, s, st, rest):
+        """for pat in it: if c: raise E(..)"""
+        if s.orelse or len(s.body) != 1 or not isinstance(s.body[0], ast.If) or s.body[0].orelse or len(s.body[0].body) != 1 \
+                or not isinstance(s.body[0].body[0], ast.Raise):
+            raise TB('for loop shape (line %d)' % s.lineno)
+        it = self.iter_term(self.expr(s.iter, st), s)
+        names = [n.id for n in ast.walk(s.target) if isinstance(n, ast.Name)]
+        var = 'x_' + '_'.join(names)
+        st2 = st.copy()
+        self.bind_pattern(s.target, T(var, it.ty[1]), st2, s)
+        c = self.test(s.body[0].test, st2)
+        if isinstance(c, (S, IsNone, Vec)):
+            raise TB('for loop: test (line %d)' % s.lineno)
+        exc = self.block(s.body[0].body, st2)
+        tpl = '(match find_first (fun %s => %s) %s with Some %s => @@0@@ | None => @@1@@ end)' % (var, self.boolterm(c), it.s, var)
+        return Br2(tpl, (exc, self.block(rest, st)))
